@@ -6,7 +6,7 @@ Import ListNotations.
 Open Scope N_scope.
 
 Definition QQ (o : options) (v : version) (og : list compaction) (c : core) : Prop :=
-  adm v (cc c) /\ may_choose o og (cc c) = true.
+  adm v (cc c) /\ may_choose o og (cc c) = true /\ has_lower_input v (cc c).
 
 (* ---------- trivial moves ---------- *)
 Lemma min_by_ts_spec : forall l best,
@@ -46,7 +46,8 @@ Proof.
              existsb (fun x => negb (fid x =? fid sst) && key_leb (first_key x) (last_key sst) && key_leb (first_key sst) (last_key x)) (nth lower v []))
             && (lower_bound (nth (S lower) v []) (first_key sst) =? upper_bound (nth (S lower) v []) (last_key sst))%nat) eqn:E; [|discriminate].
   destruct (may_choose o og (mkC lower (S lower) (first_key sst) (last_key sst) [fid sst])) eqn:EM; [|discriminate].
-  inversion H; subst c; clear H. split; [|exact EM]. cbn [cc].
+  inversion H; subst c; clear H. unfold QQ. cbn [cc].
+  split; [|split; [exact EM|exists sst; split; [exact Hs|apply is_input_spec; now left]]].
   apply andb_prop in E. destruct E as [E E3]. apply andb_prop in E. destruct E as [E1 E2].
   apply Nat.ltb_lt in E1. apply Nat.eqb_eq in E3. apply negb_true_iff in E2.
   assert (Wf : wf_fileb sst = true) by (eapply wf_files_nth; eauto).
@@ -114,7 +115,8 @@ Proof.
     eapply (find_best_adm o v og lower bs (first_key sst) (last_key sst) (Some c, score) c); auto.
     - repeat split; auto.
     - unfold compute_bounds in EB. apply cb_levels_ok; [|exact EB]. intros j Hj. now apply wfl_skipn_levels.
-    - apply file_first_le_last. eapply wf_files_nth; eauto. }
+    - apply file_first_le_last. eapply wf_files_nth; eauto.
+    - exists sst. repeat split; auto; apply key_leb_refl. }
   destruct (mf && forallb (fun x => is_input (cc c) x) (nth lower v []) &&
             (csize c <? match d_mand st with Some m => csize m | None => 0 end)).
   - inversion H; subst st'. split; cbn [d_cand d_mand]; [exact P1|]. intros c' E. inversion E; subst. exact QC.
@@ -165,7 +167,9 @@ Proof.
       - unfold compute_bounds in EB. apply cb_levels_ok; [|exact EB]. intros j Hj. now apply wfl_skipn_levels.
       - subst fk lk. eapply key_leb_trans; [apply min_key_le_init|].
         eapply key_leb_trans; [|apply max_key_ge_init].
-        apply file_first_le_last. apply (wf_files_nth v O f W). unfold level0 in E0. destruct v; [discriminate|]. cbn in *. rewrite E0. now left. }
+        apply file_first_le_last. apply (wf_files_nth v O f W). unfold level0 in E0. destruct v; [discriminate|]. cbn in *. rewrite E0. now left.
+      - exists f. split; [unfold level0 in E0; destruct v; [discriminate|]; cbn in *; rewrite E0; now left|].
+        subst fk lk. split; [apply min_key_le_init|apply max_key_ge_init]. }
     destruct mf; inversion H; subst; split; cbn [d_cand d_mand]; try discriminate; intros c' E; inversion E; subst; exact QC.
 Qed.
 
@@ -195,9 +199,13 @@ Qed.
 Theorem selector_admissible o v og out c : sel_wf v ->
   next_compaction o v og = Ok out -> nc_choice out = Some c -> valid_compactionb v (cc c) = true.
 Proof.
-  intros WF H Hc. destruct (next_compaction_adm o v og out c WF H Hc) as [A _]. now apply adm_valid.
+  intros WF H Hc. destruct (next_compaction_adm o v og out c WF H Hc) as (A & _ & _). now apply adm_valid.
 Qed.
 
 Theorem selector_may_choose o v og out c : sel_wf v ->
   next_compaction o v og = Ok out -> nc_choice out = Some c -> may_choose o og (cc c) = true.
-Proof. intros WF H Hc. now destruct (next_compaction_adm o v og out c WF H Hc). Qed.
+Proof. intros WF H Hc. now destruct (next_compaction_adm o v og out c WF H Hc) as (_ & M & _). Qed.
+
+Theorem selector_takes_from_lower o v og out c : sel_wf v ->
+  next_compaction o v og = Ok out -> nc_choice out = Some c -> has_lower_input v (cc c).
+Proof. intros WF H Hc. now destruct (next_compaction_adm o v og out c WF H Hc) as (_ & _ & L). Qed.
